@@ -143,7 +143,7 @@ func newUnit(prog *Program, fi *FuncInfo, blk *Block, prop string, suffix string
 		Name: prop + "/" + fi.Key, Suffix: suffix, obIdx: map[string]*Obligation{}, structs: map[string]*StructInfo{},
 		strUsed: map[string]bool{}, errUsed: map[string]bool{}, Assumed: map[string]bool{}, inlined: map[string]bool{},
 		usedContracts: map[string]string{}, addrTaken: map[types.Object]Term{}, modifiesRefs: map[string][]Term{}, poolObjs: map[string]Term{},
-		knownLits: map[string]*litInfo{}}
+		knownLits: map[string]*litInfo{}, ghosts: map[string]types.Object{}, heapSorts: map[string]Sort{}}
 	u.BV = blk != nil && blk.Arith == "bv"
 	return u
 }
@@ -227,8 +227,26 @@ func (u *Unit) run(extra func(env *Env)) (err string) {
 	}()
 	blk := u.Block
 	env := u.setupEntry()
+	// every heap this unit will ever touch exists from the start (names collected by a first pass), so that
+	// calls and loops havoc all of them and no heap is created lazily in some later state
+	{
+		var names []string
+		for n := range u.preHeaps {
+			names = append(names, n)
+		}
+		sort.Strings(names)
+		for _, n := range names {
+			u.heap(env, n, u.preHeaps[n])
+		}
+		u.setupDone = true
+	}
 	if extra != nil {
 		extra(env)
+	}
+	u.declareGhosts(env, blk)
+	u.runGhostKind(env, blk, "ghostinit")
+	for k, v := range env.vars {
+		u.entry.vars[k] = v
 	}
 	for _, cl := range blk.Of("requires") {
 		env.assume(u.specExpr(cl, env, nil))
@@ -271,6 +289,11 @@ func (u *Unit) run(extra func(env *Env)) (err string) {
 				u.runDefers(o.env, u.FI.Decl)
 			}
 			nret++
+			u.retVals = o.vals
+			if u.retVals == nil {
+				u.retVals = []Value{}
+			}
+			u.runGhostSets(o.env, blk)
 			u.checkPost(o)
 		case oPanic:
 			cls := blk.Of("ensures@panic")
@@ -344,3 +367,106 @@ func (u *Unit) finish() {
 }
 
 var _ = token.NoPos
+
+// ghost variables: declared in the function block as "ghost <name> <smt sort>"; they are ordinary symbolic
+// variables of the verifier that no Go statement can touch. In a caller they are fresh (existential witnesses).
+func parseGhostDecl(text string) (string, Sort) {
+	text = strings.TrimSpace(text)
+	i := strings.IndexAny(text, " \t")
+	if i < 0 {
+		panic(unsupported{"bad ghost declaration: " + text})
+	}
+	return text[:i], Sort(strings.TrimSpace(text[i+1:]))
+}
+
+func (u *Unit) declareGhosts(env *Env, blk *Block) {
+	for _, cl := range blk.Of("ghost") {
+		name, sort := parseGhostDecl(cl.Text)
+		obj := types.NewVar(token.NoPos, nil, name, nil)
+		u.ghosts[name] = obj
+		t := u.D.Fresh("ghost_"+name, sort)
+		env.vars[obj] = t
+		u.entry.vars[obj] = t
+	}
+}
+
+// "ghostset <name> = <expr>"
+func (u *Unit) runGhostSets(env *Env, blk *Block) {
+	u.runGhostKind(env, blk, "ghostset")
+}
+
+func (u *Unit) runGhostKind(env *Env, blk *Block, kind string) {
+	if blk == nil {
+		return
+	}
+	for _, cl := range blk.Of(kind) {
+		i := strings.Index(cl.Text, "=")
+		if i < 0 {
+			panic(unsupported{"bad ghostset: " + cl.Text})
+		}
+		name := strings.TrimSpace(cl.Text[:i])
+		obj := u.ghosts[name]
+		if obj == nil {
+			panic(unsupported{"ghostset of undeclared ghost " + name})
+		}
+		sub := Clause{Kind: "ghostset", Text: strings.TrimSpace(cl.Text[i+1:]), Line: cl.Line, File: cl.File}
+		t := u.specTermCtx(sub, env, u.ownCtx)
+		if t.Sort != env.vars[obj].Sort {
+			panic(unsupported{fmt.Sprintf("%s:%d: ghostset %s: sort %s, want %s", cl.File, cl.Line, name, t.Sort, env.vars[obj].Sort)})
+		}
+		env.vars[obj] = u.define(env, "ghost_"+name, t)
+	}
+}
+
+// ghost variables assigned by a loop block (and the blocks of loops nested in it)
+func (u *Unit) ghostsSetIn(stmt ast.Stmt) []types.Object {
+	var out []types.Object
+	seen := map[string]bool{}
+	owner := u.curFn[len(u.curFn)-1]
+	ast.Inspect(stmt, func(n ast.Node) bool {
+		st, ok := n.(ast.Stmt)
+		if !ok {
+			return true
+		}
+		ord, isLoop := u.loops[st]
+		if !isLoop {
+			return true
+		}
+		blk := u.Prog.Contracts.Get(owner.Key, fmt.Sprintf("loop %d", ord))
+		if blk == nil {
+			return true
+		}
+		for _, cl := range blk.Of("ghostset") {
+			if i := strings.Index(cl.Text, "="); i > 0 {
+				name := strings.TrimSpace(cl.Text[:i])
+				if obj := u.ghosts[name]; obj != nil && !seen[name] {
+					seen[name] = true
+					out = append(out, obj)
+				}
+			}
+		}
+		return true
+	})
+	return out
+}
+
+// two-pass execution: pass 1 discovers the heaps, pass 2 is the real one
+func runUnit(prog *Program, fi *FuncInfo, blk *Block, prop, suffix string, extra func(u *Unit) func(env *Env)) (*Unit, string) {
+	u1 := newUnit(prog, fi, blk, prop, suffix)
+	u1.muteObs = true
+	var ex func(env *Env)
+	if extra != nil {
+		ex = extra(u1)
+	}
+	if e := u1.run(ex); e != "" {
+		u1.muteObs = false
+		return u1, e
+	}
+	u := newUnit(prog, fi, blk, prop, suffix)
+	u.preHeaps = u1.heapSorts
+	if extra != nil {
+		ex = extra(u)
+	}
+	e := u.run(ex)
+	return u, e
+}
